@@ -8,6 +8,36 @@ ALL = ["C%02d" % i for i in range(1, 21)]
 
 # pid -> (category, level text, level note, technique, design_ref)
 CHECKS = {
+ "C04": ("proof",
+         "Theorems over a timed model of the prompter (Model/Prompt.v: acts, scene groups with waitUntil, concurrent lines, sequential steps; arbitrary non-negative latencies at every action, scene start, barrier and act start): acts sequential, groups behind barriers, line order, never ahead of the tempo, recorded interval brackets the command's own interval — for all scripts, tempos, durations and latencies, by induction. Tie: generated plays through the real binary whose actions write a wall-clock ledger; the ledger, csv rows and exit status are checked in Coq to be a run of the timed model for SOME latencies >= 0 (inequalities that added delay can only help, so load cannot raise an alarm) and against plain-meaning oracles.",
+         "Trusted: Coq kernel+VM, harness, real parser supplying the compiled play (cmd.VerifParse). Observed, not proved: wg.Wait, time.After, exec, wall clock. Two checker-completeness lemmas are exercised per case instead of proved.",
+         "Rocq/Coq proof (induction over plays with arbitrary latencies) + end-to-end ledger correspondence by vm_compute",
+         "DESIGN.md section 6, C04"),
+ "C05": ("proof",
+         "Theorems over the untimed prompter model (perform: repeat bookkeeping, failOk, timeouts) — a completed play performed exactly the prescribed groups (K repetitions, K = N for `repeat N times`), a non-tolerated failure is the last group and yields failure, tolerated failures change nothing — and over the conductor LTS (exit 0 implies the prompter completed, for every label sequence, after fix d415a46). Tie: generated plays x failing positions x spotlight behaviours through the real binary; exit status and the multiset of performed instances are compared in Coq with the model and the prescription.",
+         "Trusted: Coq kernel+VM, harness. OS/runtime behaviour observed end-to-end. Quiesce (signals) excluded from the exit-0 theorem.",
+         "Rocq/Coq proof (induction; LTS invariant) + end-to-end correspondence by vm_compute",
+         "DESIGN.md section 6, C05"),
+ "C07": ("proof",
+         "The conductor is a finite LTS (four components x shutdown stages x cleanup phases x kill protocol; errors abstracted to nil/cancel/audit/other); invariants are established by a reflective reachability certificate (4719 states, closure soundness proved once): step bound, both cleanups exactly once and in order on all finish orders, no survivor in an interrupted command's process group (after fixes 5238de7, c7b3a08). Termination and no-scene-after-cancel are PARTIAL (hypothesis: commands end by themselves) with refutation witnesses for the known finding (redirected action/cleanup commands are not interruptible). Tie: single-fault plays through the real binary (action/spotlight/cleanup failing, hanging, ignoring SIGHUP, -S fouls, evaluation errors, SIGINT/SIGTERM at several instants): wall time to exit, cleanup marker counts, /proc scan for survivors, exit status.",
+         "Trusted: Coq kernel+VM, harness. Process reaping, signal delivery and time bounds are OS behaviour, observed only. Known finding running-action-or-cleanup-not-interruptible is listed, not repaired.",
+         "Rocq/Coq proof (reflective reachability certificate over a finite LTS) + end-to-end fault injection",
+         "DESIGN.md section 6, C07"),
+ "C08": ("proof",
+         "Theorems over Model/Spotlight.v (detectSignals: per-parser match facts, time stamp by group in exact nanoseconds, typed value, delta against the previous parsed sample, grouping by time stamp) composed with the audition model's round and the collector's per-watcher fan-out: for every line sequence, signal kind, time-stamp group and number of observers/actors the rows of file (observer, actor, signal) are exactly one per matching line with parsable captures, in order, with the stated value and time; unparsable captures drop only that point; lines matching nothing leave no trace. Tie: generated roles and line streams through the real detectSignals, checkEvent and collectObservation (real CSV files), compared in Coq with the model and with a generator-side oracle that knows by construction what each line matches; thorough adds end-to-end plays.",
+         "Trusted: Coq kernel+VM, harness+hook. Inputs, not modelled: Go regexp match/captures, time.Parse for rfc3339; strconv.ParseFloat and the ts_log shape are modelled and compared with the library on every generated string; float64 as exact rationals on values where the code's arithmetic is exact. Theorems assume the audition was not stopped by an evaluation error.",
+         "Rocq/Coq proof + differential correspondence and independent oracle by vm_compute",
+         "DESIGN.md section 6, C08"),
+ "C12": ("proof",
+         "Path algebra (Clean, Join, Abs, Rel, Dir), symlink resolution, the survival decision table of run()'s deferred functions and the time range are modelled (Model/Dirs.v) and proved: `latest` resolves to the run directory for every cwd and output directory (after fix f07bf0c), everything written lies under the run directory, artifacts survive iff fouled or -k, the run directory is erased iff --clear and no foul, Foul = (exit status != 0) when nothing fails after the play, the range contains every instant. Tie: ~1,400 path/link cases against the real filepath functions and prepareDirs, plus a covering array (thorough: the full 256-play matrix) of real CLI plays whose file tree, result.js and plot scripts are inspected.",
+         "Trusted: Coq kernel+VM, harness+hook. Observed only: that nothing is written elsewhere, that artifact-tree and plot-script names exist. gnuplot is absent here (warning only). Known finding: unquoted upload command.",
+         "Rocq/Coq proof (path algebra, decision table) + differential path cases + end-to-end flag matrix",
+         "DESIGN.md section 6, C12"),
+ "C13": ("proof",
+         "Byte-level transcriptions of prepareScript, the cast parser (roles, extends, multi-actor expansion) and work directories, plus a five-instruction mini-shell that interprets the script prefix: at the point where the user command starts cwd = workDir, TMPDIR/HOME inside the run directory, every `with` variable set and exported, i = k for the k-th actor, output appended to <name>.log iff not a spotlight, independent of the caller's cwd/env — for every cast, N, role graph and script. Tie: the model's script text is compared byte-for-byte with ~3,600 real script files per run, and the scripts are executed by real bash (~1,100 executions, directly and through another actor's script, from a foreign cwd/env) with the observed state compared with the mini-shell's prediction and a plain-meaning oracle.",
+         "Trusted: Coq kernel+VM, harness+hook. bash itself is outside Coq (validated by execution). Outside the claim: work directories / action names with shell-special characters, `with` values with quotes, `with` clauses overriding TMPDIR/HOME/i.",
+         "Rocq/Coq proof over transcription + mini-shell, validated by byte-for-byte comparison and real bash executions",
+         "DESIGN.md section 6, C13"),
  "C06": ("proof",
          "Theorems over a hand-written byte-level model (suffixes for cursors) of validateStoryLine, extractAction, combineActs, combineStoryLines, the storyline/edit branches and compileV2 show that validate, merge, edit and compile equal an independently written column denotation (columns, column-wise union in clause order, one timed group per column with before/after mood steps, act end at ncols x tempo) for all strings, scripts, scene tables and tempos, by induction without bounds. The model is tied to the current source on every run by ~4,800 (thorough ~170,000, three small scopes enumerated completely) differential cases through the real parseScript, compileV2, printSteps and combineActs (plus the -n -p CLI on a sample), with the denotation as oracle on the implementation's own output.",
          "Trusted: Coq kernel+VM, harness+hook. The regexp substitution of `edit` is a parameter of the model (generated cases use literal patterns). Index safety of the Go code and the exact printed text are covered by the correspondence only. Tabs/other white space inside clauses and negative tempos are outside the theorems' domain (still compared).",
